@@ -333,6 +333,14 @@ func Add(a, b *Term) *Term {
 	if isZero(b) {
 		return a
 	}
+	if a.op != OpConst && b.op != OpConst {
+		if r := orConcat(a, b); r != nil {
+			return r
+		}
+		if r := orConcat(b, a); r != nil {
+			return r
+		}
+	}
 	if a.op == OpConst && b.op != OpConst {
 		a, b = b, a
 	}
@@ -446,7 +454,50 @@ func Or(a, b *Term) *Term {
 	if a == b {
 		return a
 	}
+	if r := orConcat(a, b); r != nil {
+		return r
+	}
+	if r := orConcat(b, a); r != nil {
+		return r
+	}
 	return mkOp(OpOr, a.w, 0, a, b)
+}
+
+// lowZeros recognises y = (H << k) i.e. H followed by k zero bits.
+func lowZeros(y *Term) (*Term, uint8, bool) {
+	if y.op == OpConcat && isZero(y.args[1]) {
+		return y.args[0], y.args[1].w, true
+	}
+	if y.op == OpZExt {
+		in := y.args[0]
+		if in.op == OpConcat && isZero(in.args[1]) {
+			k := in.args[1].w
+			return ZExt(in.args[0], y.w-k), k, true
+		}
+	}
+	return nil, 0, false
+}
+
+// orConcat: x occupies only the low k bits and y = H<<k  =>  x|y = x+y = concat(H, x[k-1:0]).
+// This is how byte-wise integer (de)serialisation is recognised as identity.
+func orConcat(x, y *Term) *Term {
+	h, k, ok := lowZeros(y)
+	if !ok {
+		return nil
+	}
+	l := x
+	if x.op == OpZExt {
+		l = x.args[0]
+	} else if x.op == OpConst {
+		if x.c > mask(k) {
+			return nil
+		}
+		return Concat(h, BV(k, x.c))
+	}
+	if l.w > k {
+		return nil
+	}
+	return Concat(h, ZExt(l, k))
 }
 func Xor(a, b *Term) *Term {
 	chkW(a, b)
@@ -517,6 +568,9 @@ func Concat(hi, lo *Term) *Term {
 	w := hi.w + lo.w
 	if hi.op == OpConst && hi.c == 0 && lo.op != OpConst {
 		return ZExt(lo, w)
+	}
+	if hi.op == OpZExt && !(lo.op == OpConst && lo.c == 0) {
+		return ZExt(Concat(hi.args[0], lo), w)
 	}
 	// concat(extract(x,h,m+1), extract(x,m,l)) = extract(x,h,l)
 	if hi.op == OpExtract && lo.op == OpExtract && hi.args[0] == lo.args[0] {
